@@ -394,10 +394,15 @@ def campaign(prop, tier, verif_seed, nruns=None, jobs=None, out=sys.stdout):
     kf_hits = {}
     seen_sigs = set()
     final_sigs = set()
+    attempts = {}
     for idx, scn, viol in viols:
         if viol['sig'] in seen_sigs:
             continue
-        seen_sigs.add(viol['sig'])
+        # a violation that does not replay in a fresh process (it depended on what the worker had done before) is not
+        # reported; another run with the same raw signature is tried instead, a few times
+        attempts[viol['sig']] = attempts.get(viol['sig'], 0) + 1
+        if attempts[viol['sig']] > 4:
+            continue
         if len(seen_sigs) > 6:
             break
         mscn, mviol, nex = minimise(mod, scn, viol)
@@ -407,6 +412,7 @@ def campaign(prop, tier, verif_seed, nruns=None, jobs=None, out=sys.stdout):
         if not ok:
             unreplayable.append((mviol['sig'], idx, txt[-600:]))
             continue
+        seen_sigs.add(viol['sig'])
         if mviol['sig'] in final_sigs:
             continue
         final_sigs.add(mviol['sig'])
